@@ -2,6 +2,7 @@ package bcai
 
 import (
 	"fmt"
+	"os"
 	"sort"
 	"strings"
 
@@ -567,7 +568,7 @@ func (e *eng) check() {
 				reported[id] = true
 				e.s.Bad(rule, method+" / "+what, posOf(k), detail, e.describe(pa)...)
 			})
-			for _, r := range []string{"B1", "B2", "B3", "B4", "B5", "B6", "B7", "B8", "B9", "B10", "T1"} {
+			for _, r := range []string{"B1", "B2", "B3", "B4", "B5", "B6", "B7", "B8", "B9", "B10", "T1", "T2m"} {
 				if !dirty[r] {
 					perMethod[method][r]++
 				}
@@ -599,10 +600,13 @@ func (e *eng) check() {
 		"B3": "jumps are patched exactly once into the node's own code; code is only appended", "B4": "the result descriptor tells where the value is",
 		"B5": "children are compiled in source order into the operand slots the VM reads them from", "B6": "conditions are tested by a conditional jump of the right polarity",
 		"B7": "debug info is keyed by the address of the CALL", "B8": "iterator context ids are created, resumed and destroyed consistently",
-		"B9": "tmp is read only while it still holds the value it was given", "B10": "operands address constants of the right type", "T1": "every emitted opcode has a VM handler",
+		"B9": "tmp is read only while it still holds the value it was given", "B10": "operands address constants of the right type", "T1": "every emitted opcode has a VM handler", "T2m": "every operator lexeme is compiled to the opcode of the same name",
 	}
 	for _, m := range methods {
-		for _, r := range []string{"B1", "B2", "B3", "B4", "B5", "B6", "B7", "B8", "B9", "B10", "T1"} {
+		for _, r := range []string{"B1", "B2", "B3", "B4", "B5", "B6", "B7", "B8", "B9", "B10", "T1", "T2m"} {
+			if r == "T2m" && !strings.Contains(m, "BinOp") && !strings.Contains(m, "UnOp") {
+				continue
+			}
 			bad := false
 			for id := range reported {
 				if strings.HasPrefix(id, r+"|"+m+"|") {
@@ -617,6 +621,17 @@ func (e *eng) check() {
 				}
 				e.s.OK(r, m+" / "+ruleText[r], pos, fmt.Sprintf("holds on all %d (context, path) pairs explored", perMethod[m][r]))
 			}
+		}
+	}
+	if os.Getenv("CALCSA_BCAI_STATS") != "" {
+		cnt := map[string]int{}
+		kc := map[string]int{}
+		for k, ps := range e.paths {
+			cnt[k.Type] += len(ps)
+			kc[k.Type]++
+		}
+		for t, n := range cnt {
+			fmt.Printf("stats %-14s keys %4d paths(last run) %8d\n", t, kc[t], n)
 		}
 	}
 	e.s.Note("compiler explored: %d summary keys (node type x flag context x operand slot), %d runs to the fixpoint, %d paths", len(e.sums), e.nruns, e.npaths)
